@@ -117,7 +117,7 @@ jose_cfg_set_err_func(jose_cfg_t *cfg, jose_cfg_err_t *err, void *misc)
 void *
 jose_cfg_get_err_misc(jose_cfg_t *cfg)
 {
-    return cfg->err;
+    return cfg->misc;
 }
 
 void
